@@ -28,7 +28,7 @@ TRUSTED = ["ocaml/driver/c04.ml: classification of a strict-check failure into a
 def streams(tier, seed):
     if tier == "quick":
         return [dict(tag="main", count=60, seed=seed)]
-    return [dict(tag="main%d" % k, count=400, seed=seed * 1000 + k, extra={"real-every": 25}) for k in range(6)]
+    return [dict(tag="main%d" % k, count=800, seed=seed * 1000 + k, extra={"real-every": 40}) for k in range(5)]
 
 
 def search_streams(tier, seed, diffs):
@@ -36,10 +36,16 @@ def search_streams(tier, seed, diffs):
 
 
 MANIFEST = dict(
-    level_text=("Theorems (Coq, all systems / depths / both entry points): see Props/C04.v. The command list of init_at/unroll is modelled "
-                "exactly (use-count classification, constant-state rule); a strict script checker and a script evaluator are defined in Gallina. "
-                "Tie to /repo: recorded command stream of the real UnrollSmtEncoding vs the extracted model on every run; the strict checker, "
-                "the evaluator (against random executions) and z3/cvc5 judge the implementation's own script."),
-    level_note=("Trusted: Coq kernel; hand-written model tied by differential execution (generator-bounded). Four encoding defects are "
-                "recorded as known findings (two with a proposed repair, modelled as variant Fixed)."),
+    level_text=("Theorems (Coq, ALL well-formed systems / depths / both entry points init_at(0) and init_at(j>0)): C04_script_wf_fixed (the "
+                "script of the repaired encoding passes the strict checker: every name introduced once, before use, bodies well-sorted), "
+                "C04_script_wf_outside_known (the same for the CURRENT code outside the known class), three C04_*_refuted theorems (concrete "
+                "systems on which the current code, resp. both variants, emit an ill-formed script), C04_script_faithful (whenever the script "
+                "is accepted, evaluating it from any valuation of the declared constants taken from a run of the system gives the step "
+                "symbols of all states, inputs, constraints and bad states their values in that run; both variants). The model covers "
+                "analyze_for_serialization (use counts, post-order), UnrollSmtEncoding::{new, init_at, unroll, get_signal_at}. Tie to /repo: "
+                "the command stream recorded from the real encoding vs the extracted model on every run; the extracted strict checker, the "
+                "extracted evaluator against random executions, and z3/cvc5 judge the implementation's own script."),
+    level_note=("Trusted: Coq kernel; hand-written model tied by differential execution (generator-bounded); node identity = structural "
+                "equality (C12); names of unnamed signals taken from the implementation. Four encoding defects recorded as known findings "
+                "(two with a tested repair, modelled as variant Fixed; switch HANDLER to C04F after the fix commit)."),
 )
